@@ -89,7 +89,9 @@ def apply_mod_to_spec(spec, mod):
         v["neutralized"] = True
     elif kind == "annualize":
         v = next(v for v in out["variables"] if v["name"] == mod[1])
-        v["annualized"] = True
+        # (annualised for a stated period only - variables.get_annualized_variable(variable,
+        # period) -: months outside it keep their own formula)
+        v["annualized"] = True if len(mod) < 3 else {"within": list(WITHIN[mod[2]])}
         # "its January value": the formula in force at that January.  A formula
         # starting after 1 January therefore takes effect the next January.
         eff = {}
@@ -112,13 +114,18 @@ def apply_mod_to_spec(spec, mod):
     return out
 
 
+# periods a variable may be annualised for, with the first days of their first and last month
+WITHIN = {"year:2018:2": ("2018-01-01", "2019-12-01"), "2018": ("2018-01-01", "2018-12-01"), "month:2018-01:24": ("2018-01-01", "2019-12-01"),
+          "year:2017:3": ("2017-01-01", "2019-12-01"), "year:2019:2": ("2019-01-01", "2020-12-01")}
+
+
 def gen_mod(rng, spec, protected, counter):
     """One modification against the current specification of a system.
 
     protected: variables that carry inputs in some situation (not annualised,
     see DESIGN 4.5)."""
     vs = spec["variables"]
-    kind = weighted(rng, [("add", 2), ("update", 3), ("replace", 2), ("neutralize", 2), ("annualize", 0.6), ("param", 2)])
+    kind = weighted(rng, [("add", 2), ("update", 3), ("replace", 2), ("neutralize", 2), ("annualize", 1.0), ("param", 2)])
     plain = [v for v in vs if not v.get("neutralized") and not v.get("annualized")]
     if kind == "add" or not plain:
         name = f"n{counter[0]}"
@@ -154,7 +161,15 @@ def gen_mod(rng, spec, protected, counter):
         cands = [w for w in plain if w["unit"] == "month" and w["formulas"] and w["name"] not in protected and not w.get("end")]
         if not cands:
             return ["neutralize", v["name"]]
-        return ["annualize", pick(rng, cands)["name"]]
+        # (preferably a rule whose value depends on the month: its January value is then
+        # not what the other months would compute)
+        import json as _json
+
+        monthly = [w for w in cands if '"im"' in _json.dumps(w["formulas"])]
+        mod = ["annualize", pick(rng, monthly if monthly and chance(rng, 0.7) else cands)["name"]]
+        if chance(rng, 0.5):
+            mod.append(pick(rng, sorted(WITHIN)))
+        return mod
     g = ExprGen(rng, spec, i, "acyclic")
     if kind == "replace":
         new = {k: copy.deepcopy(v[k]) for k in ("name", "entity", "type", "unit") if k in v}
@@ -316,7 +331,13 @@ def do_mod(system, world: World, spec_before, mod, in_reform=True):
     elif kind == "neutralize":
         system.neutralize_variable(mod[1])
     elif kind == "annualize":
-        system.annualize_variable(mod[1])
+        if len(mod) > 2:
+            from openfisca_core import periods
+            from openfisca_core.variables import get_annualized_variable
+
+            system.variables[mod[1]] = get_annualized_variable(system.variables[mod[1]], periods.period(mod[2]))
+        else:
+            system.annualize_variable(mod[1])
     elif kind == "param":
         def modifier(parameters, mod=mod):
             target = _get_param(parameters, mod[1])
@@ -526,6 +547,7 @@ def _run(scn, world, res, H, scratch_worlds):
             raise AssertionError(f"harness: specification of {sid} does not compile: {e!r}") from e
         scratch_worlds.append(ref_world)
         res.count("clause:C14.derived")
+        clean = True
         for entry in scn["battery"] + extra_battery(spec, scn):
             got = evaluate(systems[sid], world, scn, entry, spec, engine=True, res=res)
             want = evaluate(ref_world.tbs, ref_world, scn, entry, spec)
@@ -539,8 +561,12 @@ def _run(scn, world, res, H, scratch_worlds):
                             annualized=bool(v.get("annualized")), neutralized=bool(v.get("neutralized")),
                             month=entry[2][5:7] if len(entry[2]) == 7 else None, reads_annualized=reads_annual,
                             spiral_budget_only=bool(reads_annual and roomy == want))
-                return False
-        return True
+                clean = False
+                if not (reads_annual and roomy == want):
+                    return False
+                # (the listed finding D12 - an annualised rule under the default spiral
+                # budget - must not hide another difference further down the battery)
+        return clean
 
     for step, op in enumerate(scn["ops"]):
         if res.violations:
@@ -669,7 +695,8 @@ def extra_battery(spec, scn):
     out = []
     for v in spec["variables"]:
         if v.get("annualized") or v.get("neutralized") or v["name"].startswith("n") or str(v.get("label", "")).startswith(("updated", "replaced")):
-            per = {"month": ["2018-03", "2018-01"], "year": ["2018"], "eternity": ["2018-01"]}.get(v["unit"], [])
+            per = {"month": ["2018-03", "2018-01"] + (["2019-03", "2019-11", "2017-05", "2020-05"] if isinstance(v.get("annualized"), dict) else []),
+                   "year": ["2018"], "eternity": ["2018-01"]}.get(v["unit"], [])
             for p in per:
                 out.append([0, v["name"], p])
             if v.get("calculate_output"):
